@@ -3,7 +3,9 @@
 
   Transliterated from (line numbers of /repo at the time of writing):
     pkg/interp/args.jq:4-109      `_args_parse` (`_parse`, `_parse_with_arg`, `_parse_without_arg`, `_flagmap`)
-    pkg/interp/options.jq:117-250 `_opt_eval`
+    pkg/interp/options.jq:117-233 `_opt_eval`, :236-371 `_opt_to_*`, `_opt_cli_arg_to_options`
+    pkg/interp/init.jq:184-195    the option merge `_opt_build_default_fixed + $parsed_args + (-o …) | . + _opt_eval($rest)`
+    pkg/interp/init.jq:197-241    help / version / usage, include paths, named arguments (`_slurps`)
     pkg/interp/init.jq:20-115     `input` (`_input`, `_input_string`), `inputs`
     pkg/interp/init.jq:120-131    `_cli_eval_on_expr_error`
     pkg/interp/init.jq:167-290    `_main`
@@ -545,7 +547,7 @@ inductive Unmodelled
   | mk (why : String)
 deriving Repr
 
-/-- options.jq:263-271 `_opt_to_boolean` on the strings the generator uses -/
+/-- options.jq:236-243 `_opt_to_boolean` on the strings the generator uses -/
 def optToBool (v : Str) : Except Unmodelled (Option Bool) :=
   if v = "true".toList then .ok (some true)
   else if v = "false".toList then .ok (some false)
@@ -555,15 +557,9 @@ def optToBool (v : Str) : Except Unmodelled (Option Bool) :=
 
 def isTrue (p : List (Str × PV)) (k : String) : Bool := (getKey k.toList p).isSome
 
-/-- keys of `-o` whose effect on status / input handling the model does not follow -/
-def dangerousOptKeys : List String :=
-  ["repl", "show_help", "show_version", "filenames", "expr", "expr_file", "expr_eval_path", "expr_given",
-   "include_path", "raw_file", "arg", "argjson", "argdecode", "option"]
-
 /-- `_opt_options` (options.jq:74-115): key → type name; data from fq -/
 abbrev OTypes := List (Str × String)
 
-/-- `-o` values are either plain or `@path` (options.jq:118-135: the file is read, failure is fatal) -/
 inductive Fatal
   | args
 deriving Repr, DecidableEq
@@ -573,89 +569,330 @@ def readable : FKind → Option Bool
   | .missing | .dir => some false
   | .unknown => none
 
-/-- init.jq:186-193 + options.jq:117-250, restricted to what decides status and input handling.
-    Result: `.error` = outside the model, `.ok (.inl ())` = `_fatal_error(_exit_code_args_error)`. -/
-def optEval (ot : OTypes) (w : World) (r : R) : Except Unmodelled (Unit ⊕ Opts) := do
-  let p := r.parsed
-  let exprFile := match getKey "expr_file".toList p with | some (.str s) => some s | _ => none
-  -- -o key=value (options.jq:364-372 `_opt_cli_arg_to_options`), applied over the flags (init.jq:173-175)
-  let optKVs := match getKey "option".toList p with | some (.obj kvs) => kvs | _ => []
-  let mut nullInput := isTrue p "null_input"
-  let mut slurp := isTrue p "slurp"
-  let mut stringInput := isTrue p "string_input"
-  let mut decodeGroup := match getKey "decode_group".toList p with | some (.str s) => s | _ => "probe".toList
+/-! ### options as JSON values: `_opt_build_default_fixed + $parsed_args + (-o …) | . + _opt_eval($rest)` (init.jq:188-195)
+
+  jq's `+` on objects lets the RIGHT operand win key by key, so the text of init.jq:189-193 fixes the order in
+  which the four sources of an option's value override each other:
+      `_opt_eval` (derived values)  >  `-o key=value`  >  dedicated flag  >  built-in default
+  wherever the flag or the `-o` stands on the command line.  `objAdd`/`mergeOptions` below are that text;
+  `Props.C17.merge_lookup` is the law. -/
+
+/-- the JSON values that occur as option values (flat: what the model does not look into is `other`) -/
+inductive JV
+  | null
+  | bool (b : Bool)
+  | num (n : Int)
+  | str (s : Str)
+  | strs (xs : List Str)                -- array of strings (`include_path` from -L, `filenames`)
+  | pairs (xs : List (Str × Str))       -- array of [NAME, VALUE] (`arg`, `argjson`, `raw_file`, `argdecode`)
+  | obj (kvs : List (Str × Str))        -- `.option` as the parser stored it
+  | nullArr                             -- `[null]`: "read stdin" (options.jq:181)
+  | other                               -- a value the model does not look into (file content, colour tables …)
+deriving DecidableEq, Repr, Inhabited
+
+/-- jq truthiness -/
+def JV.truthy : JV → Bool
+  | .null => false
+  | .bool b => b
+  | _ => true
+
+abbrev JObj := List (Str × JV)
+
+/-- jq `a + b` on objects: the entries of `b` are written over `a` from left to right -/
+def objAdd (a b : JObj) : JObj := b.foldl (fun m kv => setKey kv.1 (fun _ => kv.2) m) a
+
+/-- `$obj[$k]` with jq's `null` for an absent key -/
+def jget (m : JObj) (k : String) : JV := (getKey k.toList m).getD .null
+
+def PV.toJV : PV → JV
+  | .flag => .bool true
+  | .str s => .str s
+  | .arr xs => .strs xs
+  | .pairs xs => .pairs xs
+  | .obj kvs => .obj kvs
+
+/-- `$parsed_args` as a JSON object -/
+def parsedJ (p : List (Str × PV)) : JObj := p.map (fun kv => (kv.1, kv.2.toJV))
+
+/-- canonical decimal integers `0`, `-?[1-9][0-9]*` (the only number syntax the model follows) -/
+def canonInt? (v : Str) : Option Int :=
+  let digits (ds : Str) : Option Nat :=
+    if ds = ['0'] then some 0
+    else match ds with
+      | d :: _ => if d != '0' && ds.all Char.isDigit then some (ds.foldl (fun n c => 10 * n + (c.toNat - 48)) 0) else none
+      | [] => none
+  match v with
+  | '-' :: ds => match digits ds with | some (n + 1) => some (-(Int.ofNat (n + 1))) | _ => none
+  | ds => (digits ds).map Int.ofNat
+
+/-- a JSON string body that needs no escape: `"\(.)" | fromjson` gives the text back (options.jq:252-261) -/
+def simpleStr (v : Str) : Bool := v.all (fun c => decide (c.toNat ≥ 0x20) && c != '"' && c != '\\')
+
+/-- letters only, and none of the words a JSON reader might know -/
+def plainWord (v : Str) : Bool :=
+  !v.isEmpty && v.all Char.isAlpha &&
+    !(["true", "false", "null", "nan", "NaN", "Infinity", "infinity", "inf"].map String.toList).contains v
+
+/-- `["a","b"]` with escape-free strings and no white space -/
+def parseStrArr (v : Str) : Option (List Str) :=
+  let rec items (fuel : Nat) (s : Str) (acc : List Str) : Option (List Str) :=
+    match fuel with
+    | 0 => none
+    | fuel + 1 =>
+      match s with
+      | '"' :: tl =>
+        let body := tl.takeWhile (· != '"')
+        if !simpleStr body then none else
+        match tl.dropWhile (· != '"') with
+        | '"' :: ',' :: more => items fuel more (acc ++ [body])
+        | ['"', ']'] => some (acc ++ [body])
+        | _ => none
+      | _ => none
+  match v with
+  | ['[', ']'] => some []
+  | '[' :: tl => items (tl.length + 1) tl []
+  | _ => none
+
+/-- `[["n","v"],["m","w"]]` -/
+def parsePairArr (v : Str) : Option (List (Str × Str)) :=
+  let rec items (fuel : Nat) (s : Str) (acc : List (Str × Str)) : Option (List (Str × Str)) :=
+    match fuel with
+    | 0 => none
+    | fuel + 1 =>
+      match s with
+      | '[' :: '"' :: tl =>
+        let a := tl.takeWhile (· != '"')
+        match tl.dropWhile (· != '"') with
+        | '"' :: ',' :: '"' :: tl2 =>
+          let b := tl2.takeWhile (· != '"')
+          if !(simpleStr a && simpleStr b) then none else
+          match tl2.dropWhile (· != '"') with
+          | '"' :: ']' :: ',' :: more => items fuel more (acc ++ [(a, b)])
+          | ['"', ']', ']'] => some (acc ++ [(a, b)])
+          | _ => none
+        | _ => none
+      | _ => none
+  match v with
+  | ['[', ']'] => some []
+  | '[' :: tl => items (tl.length + 1) tl []
+  | _ => none
+
+/-- options.jq:340-350 `_opt_to($type)` (`none` = the key is not in `_opt_options`: "fuzzy"); result `none` = jq `null`
+    (the entry is then dropped, options.jq:368) -/
+def convOne (ty : Option String) (v : Str) : Except Unmodelled (Option JV) :=
+  match ty with
+  | some "boolean" => (optToBool v).map (fun b => b.map JV.bool)
+  | some "number" =>
+    match canonInt? v with
+    | some n => .ok (some (.num n))
+    | none => if plainWord v || v.head? = some '@' then .ok none else .error (.mk "number option value")
+  | some "string" => if simpleStr v then .ok (some (.str v)) else .error (.mk "string option value")
+  | some "array_string" =>
+    match parseStrArr v with
+    | some xs => .ok (some (.strs xs))
+    | none => if plainWord v then .ok none else .error (.mk "array option value")
+  | some "array_string_pair" =>
+    match parsePairArr v with
+    | some xs => .ok (some (.pairs xs))
+    | none => if plainWord v then .ok none else .error (.mk "pair array option value")
+  | some _ => .error (.mk "option type")
+  | none =>                                                       -- options.jq:330-338 `_opt_to_fuzzy`
+    if v = "true".toList then .ok (some (.bool true))
+    else if v = "false".toList then .ok (some (.bool false))
+    else if v = "null".toList then .ok none
+    else match canonInt? v with
+      | some n => .ok (some (.num n))
+      | none =>
+        if plainWord v || (v.head? = some '@' && simpleStr v && !v.contains ' ') then .ok (some (.str v))
+        else .error (.mk "fuzzy option value")
+
+/-- options.jq:363-371 `_opt_cli_arg_to_options`: every `-o` entry converted by its key's type, `null`s dropped -/
+def cliArgToOptions (ot : OTypes) : List (Str × Str) → Except Unmodelled JObj
+  | [] => .ok []
+  | (k, v) :: tl =>
+    match convOne (getKey k ot) v, cliArgToOptions ot tl with
+    | .error e, _ => .error e
+    | _, .error e => .error e
+    | .ok none, .ok m => .ok m
+    | .ok (some j), .ok m => .ok ((k, j) :: m)
+
+/-- the `.option` object of the parse result -/
+def optionKVs (p : List (Str × PV)) : List (Str × Str) :=
+  match getKey "option".toList p with
+  | some (.obj kvs) => kvs
+  | _ => []
+
+/-- init.jq:189-192: `_opt_build_default_fixed + $parsed_args + ($parsed_args.option | if . then _opt_cli_arg_to_options end)` -/
+def mergePre (dflt : JObj) (ot : OTypes) (p : List (Str × PV)) : Except Unmodelled JObj :=
+  match cliArgToOptions ot (optionKVs p) with
+  | .error e => .error e
+  | .ok o => .ok (objAdd (objAdd dflt (parsedJ p)) o)
+
+/-- can the file be read (`open | tobytes | tostring`)?  `none` = the harness does not vouch for it -/
+def World.readable (w : World) (path : Str) : Option Bool :=
+  match w.tok path with
+  | none => none
+  | some tk => FqModel.Cli.readable tk.fk
+
+/-- options.jq:175-179 / :191-194: the positionals that are input files — all of them when the program comes from a file
+    (`-f`, `--from-file`, `-o expr_file=`), all but the first (the program) otherwise -/
+def positionalFiles (m : JObj) (rest : List Str) : List Str :=
+  if (jget m "expr_file").truthy then rest else rest.drop 1
+
+/-- options.jq:190-199: `--repl` without positional input files means null input -/
+def replNullInput (m : JObj) (rest : List Str) : JV :=
+  if (positionalFiles m rest).isEmpty && (jget m "repl").truthy then JV.bool true else JV.null
+
+inductive EvalRes
+  | fatal                              -- `_fatal_error(_exit_code_args_error)`
+  | ok (over : JObj)                   -- the object `_opt_eval` returns (nulls already dropped)
+deriving Repr
+
+/-- options.jq:117-233 `_opt_eval($rest)` on the merged object `m` -/
+def optEvalJ (w : World) (m : JObj) (rest : List Str) : Except Unmodelled EvalRes := do
   let mut fatal := false
-  for (k, v) in optKVs do
-    let ty := getKey k ot
-    -- options.jq:364-372: the value is converted by the key's type (`fuzzy` for unknown keys); only a
-    -- `string`/`fuzzy` conversion can leave a string that starts with `@`, which options.jq:118-135 then
-    -- replaces by the file's content (failure is fatal)
-    if v.head? = some '@' && (ty = some "string" || ty = none) then
-      match w.tok (v.drop 1) with
-      | none => throw (.mk "no world entry for @path")
-      | some tk =>
-        match readable tk.fk with
-        | some false => fatal := true
-        | _ => throw (.mk "-o key=@readable-file")
-    else if dangerousOptKeys.contains (String.ofList k) then throw (.mk s!"-o {String.ofList k}")
-    else if k = "null_input".toList then
-      match ← optToBool v with | some b => nullInput := b | none => pure ()
-    else if k = "slurp".toList then
-      match ← optToBool v with | some b => slurp := b | none => pure ()
-    else if k = "string_input".toList then
-      match ← optToBool v with | some b => stringInput := b | none => pure ()
-    else if k = "decode_group".toList then
-      -- `_opt_to_string`: the text between quotes must be a JSON string body
-      if v.all (fun c => c.isAlphanum || c = '_') then decodeGroup := v else throw (.mk "decode_group value")
-    else pure ()
-  -- options.jq:136-151 argjson: `fromjson` failure is fatal
-  match getKey "argjson".toList p with
-  | some (.pairs xs) =>
-    for (_, j) in xs do
-      match w.tok j with
-      | none => throw (.mk "no world entry for argjson value")
-      | some tk => if !tk.jsonOk then fatal := true
-  | _ => pure ()
-  -- options.jq:159-171 expr_file: open failure is fatal
-  match exprFile with
-  | some f =>
-    match w.tok f with
-    | none => throw (.mk "no world entry for expr file")
-    | some tk =>
-      match readable tk.fk with
+  -- :118-135 every STRING value that starts with `@` is replaced by the file's content; failure is fatal
+  for (_, v) in m do
+    match v with
+    | .str ('@' :: path) =>
+      match w.readable path with
       | some false => fatal := true
-      | some true => pure ()
-      | none => if tk.cc = .unknown then throw (.mk "expr file of unknown kind") else pure ()
-  | none => pure ()
-  -- options.jq:207-220 raw_file: open failure is fatal
-  match getKey "raw_file".toList p with
-  | some (.pairs xs) =>
-    for (_, f) in xs do
-      match w.tok f with
-      | none => throw (.mk "no world entry for raw-file path")
-      | some tk =>
-        match readable tk.fk with
+      | some true => throw (.mk "option value @readable-file")
+      | none => throw (.mk "no world entry for @path")
+    | _ => pure ()
+  -- :136-151 argjson: `fromjson` failure is fatal
+  let argjson ← match jget m "argjson" with
+    | .pairs xs => do
+      for (_, j) in xs do
+        match w.tok j with
+        | none => throw (.mk "no world entry for argjson value")
+        | some tk => if !tk.jsonOk then fatal := true
+      pure (JV.pairs xs)
+    | .null | .bool false => pure JV.null
+    | _ => throw (.mk "argjson option of unmodelled type")
+  -- :152-157
+  let color := if jget m "monochrome_output" = .bool true then JV.bool false
+    else if jget m "color_output" = .bool true then JV.bool true else JV.null
+  -- :158-169 expr: -f file content, else `$rest[0] // null`
+  let exprFile := jget m "expr_file"
+  let expr ← if exprFile.truthy then
+      match exprFile with
+      | .str f =>
+        match w.tok f with
+        | none => throw (.mk "no world entry for expr file")
+        | some tk =>
+          match readable tk.fk with
+          | some false => do fatal := true; pure JV.other
+          | some true => pure JV.other
+          | none => if tk.cc = .unknown then throw (.mk "expr file of unknown kind") else pure JV.other
+      | _ => throw (.mk "expr_file option of unmodelled type")
+    else pure (match rest.head? with | some e => JV.str e | none => JV.null)
+  -- :175-183 filenames
+  let files := positionalFiles m rest
+  let filenames ← if (jget m "filenames").truthy then
+      match jget m "filenames" with
+      | .strs xs => pure (if xs.isEmpty then JV.nullArr else JV.strs xs)
+      | _ => throw (.mk "filenames option of unmodelled type")
+    else pure (if files.isEmpty then JV.nullArr else JV.strs files)
+  -- :184-189
+  let joinString := if (jget m "join_output").truthy then JV.str []
+    else if (jget m "null_output").truthy then JV.str [Char.ofNat 0] else JV.null
+  -- :190-199 `--repl` without positional input files means null input (whatever `filenames` says)
+  let nullInput := replNullInput m rest
+  -- :200-212 raw_file: open failure is fatal
+  let rawFile ← match jget m "raw_file" with
+    | .pairs xs => do
+      for (_, f) in xs do
+        match w.readable f with
         | some false => fatal := true
         | some true => pure ()
         | none => throw (.mk "raw-file of unknown kind")
-  | _ => pure ()
-  if fatal then return .inl ()
-  -- options.jq:181-189 filenames; `[]` ⇒ `[null]` = stdin
-  let files := if exprFile.isSome then r.rest else r.rest.drop 1
-  let filenames : List (Option Str) := if files.isEmpty then [none] else files.map some
-  -- options.jq:190-199: `--repl` without input files means null input (added last, so it wins over -n / -o)
-  let repl := isTrue p "repl"
-  if files.isEmpty && repl then nullInput := true
-  return .inr {
+      pure (JV.pairs xs)
+    | .null | .bool false => pure JV.null
+    | _ => throw (.mk "raw_file option of unmodelled type")
+  -- :213-220
+  let rawString := if (jget m "raw_string").truthy || (jget m "join_output").truthy || (jget m "null_output").truthy
+    then JV.bool true else JV.null
+  let unicode := if jget m "unicode_output" = .bool true then JV.bool true else JV.null
+  let valueOutput := if jget m "value_output" = .bool true then JV.bool true else JV.null
+  if fatal then return .fatal
+  let over : JObj := [
+    ("argjson".toList, argjson), ("color".toList, color), ("expr".toList, expr),
+    ("expr_given".toList, .bool (!rest.isEmpty)), ("expr_eval_path".toList, exprFile),
+    ("filenames".toList, filenames), ("join_string".toList, joinString), ("null_input".toList, nullInput),
+    ("raw_file".toList, rawFile), ("raw_string".toList, rawString), ("unicode".toList, unicode),
+    ("value_output".toList, valueOutput)]
+  return .ok (over.filter (fun kv => kv.2 != .null))                      -- :232
+
+inductive Merged
+  | fatal
+  | ok (m : JObj)
+deriving Repr
+
+/-- init.jq:188-195: the options `_main` works with -/
+def mergeOptions (dflt : JObj) (ot : OTypes) (w : World) (r : R) : Except Unmodelled Merged :=
+  match mergePre dflt ot r.parsed with
+  | .error e => .error e
+  | .ok m =>
+    match optEvalJ w m r.rest with
+    | .error e => .error e
+    | .ok .fatal => .ok .fatal
+    | .ok (.ok over) => .ok (.ok (objAdd m over))
+
+/-! ### named arguments: `$opts.arg + $opts.argjson + $opts.raw_file + ($opts.argdecode | _map_argdecode) | from_entries`
+    (init.jq:233-241) -/
+
+inductive Src
+  | arg (v : Str)          -- the string
+  | json (text : Str)      -- the JSON value of the text
+  | raw (path : Str)       -- the file's content as a string
+  | dec (path : Str)       -- the decode value of the file
+deriving DecidableEq, Repr
+
+def pairsOf (m : JObj) (k : String) : Except Unmodelled (List (Str × Str)) :=
+  match jget m k with
+  | .pairs xs => .ok xs
+  | _ => .error (.mk s!"{k} option is not an array of pairs")
+
+/-- the concatenation of init.jq:234-237, in THAT order whatever the order on the command line -/
+def bindList (m : JObj) : Except Unmodelled (List (Str × Src)) :=
+  match pairsOf m "arg", pairsOf m "argjson", pairsOf m "raw_file", pairsOf m "argdecode" with
+  | .ok a, .ok j, .ok r, .ok d =>
+    .ok (a.map (fun p => (p.1, Src.arg p.2)) ++ j.map (fun p => (p.1, Src.json p.2)) ++
+         r.map (fun p => (p.1, Src.raw p.2)) ++ d.map (fun p => (p.1, Src.dec p.2)))
+  | .error e, _, _, _ | _, .error e, _, _ | _, _, .error e, _ | _, _, _, .error e => .error e
+
+/-- `from_entries`: the LAST entry of a name wins -/
+def bindOf (l : List (Str × Src)) (name : Str) : Option Src := (l.reverse.find? (fun p => p.1 = name)).map (·.2)
+
+/-- `_main` reads the options by jq truthiness (init.jq:197-258) -/
+def optsOfMerged (m : JObj) (r : R) : Except Unmodelled Opts := do
+  let exprFile ← match jget m "expr_file" with
+    | .str s => pure (some s)
+    | .null | .bool false => pure none
+    | _ => throw (.mk "expr_file option of unmodelled type")
+  let exprArg ← match jget m "expr" with
+    | .str s => pure (some s)
+    | .other => pure none                      -- the content of the -f file
+    | _ => throw (.mk "expr option of unmodelled type")
+  let filenames ← match jget m "filenames" with
+    | .strs xs => pure (xs.map some)
+    | .nullArr => pure [none]
+    | _ => throw (.mk "filenames option of unmodelled type")
+  let decodeGroup ← match jget m "decode_group" with
+    | .str s => pure s
+    | _ => throw (.mk "decode_group option of unmodelled type")
+  let _ := r
+  return {
     exprFile := exprFile
-    exprArg := if exprFile.isSome then none else r.rest.head?
+    exprArg := if exprFile.isSome then none else exprArg
     filenames := filenames
-    nullInput := nullInput
-    slurp := slurp
-    stringInput := stringInput
-    repl := repl
-    showHelp := isTrue p "show_help"
-    showVersion := isTrue p "show_version"
+    nullInput := (jget m "null_input").truthy
+    slurp := (jget m "slurp").truthy
+    stringInput := (jget m "string_input").truthy
+    repl := (jget m "repl").truthy
+    showHelp := (jget m "show_help").truthy
+    showVersion := (jget m "show_version").truthy
     decodeGroup := decodeGroup }
 
 /-- what the run line's observation is compared with -/
@@ -689,33 +926,59 @@ def classEnv (w : World) (fmt : FmtKind) (pc : PClass) (stdin : FKind) : Env FKi
 
 def nameOf (f : Option Str) : Str := f.getD "<stdin>".toList
 
-/-- `_main` (init.jq:167-290) at class level -/
-def mainModel (t : Table) (c : Codes) (ot : OTypes) (w : World) (argv : List Str) : Except Unmodelled Pred := do
+/-- init.jq:170-180 `_map_argdecode`: does `open | decode` (with the -d group) fail for one of the `--argdecode` /
+    `--decode-file` paths? -/
+def argdecodeFails (w : World) (fmt : FmtKind) : List (Str × Src) → Except Unmodelled Bool
+  | [] => .ok false
+  | (_, .dec f) :: tl =>
+    match w.tok f with
+    | none => .error (.mk "no world entry for argdecode path")
+    | some tk =>
+      if tk.fk = .unknown then .error (.mk "argdecode of unknown kind")
+      else
+        let e := classEnv w fmt PClass.ok w.stdin
+        match (e.openF f).bind e.decode with
+        | none => .ok true
+        | some _ => argdecodeFails w fmt tl
+  | _ :: tl => argdecodeFails w fmt tl
+
+def fatalPred (c : Codes) : Pred := { exit := c.args, errs := [], fatal := true, defaultMode := false, files := [] }
+def quietPred : Pred := { exit := 0, errs := [], fatal := false, defaultMode := false, files := [] }
+
+/-- what `_main` decides before anything is read or run (init.jq:184-216) -/
+inductive Decision
+  | fatalArgs                       -- `_args_parse` error (:184-185) or a `_fatal_error` inside `_opt_eval` (:193)
+  | help                            -- :197-214
+  | version                         -- :215-216
+  | run (m : JObj) (o : Opts)
+deriving Repr
+
+/-- init.jq:184-216.  The order is the code's: argument errors and the file errors of `_opt_eval` (-f, the raw-file
+    paths, `--argjson` texts, `-o k=@path`) come BEFORE the help/version test, everything else after it
+    (`--argdecode` paths, compiling the program, opening inputs).  The "usage" branch (:217-228) needs stdin AND stdout to
+    be terminals: never on the virtual OS. -/
+def mainDecide (t : Table) (dflt : JObj) (ot : OTypes) (w : World) (argv : List Str) : Except Unmodelled Decision :=
   match argsParse t argv with
-  | .error _ => return { exit := c.args, errs := [], fatal := true, defaultMode := false, files := [] }   -- :182-184
+  | .error _ => .ok .fatalArgs
   | .ok r =>
-    match ← optEval ot w r with
-    | .inl () => return { exit := c.args, errs := [], fatal := true, defaultMode := false, files := [] }
-    | .inr o =>
-      if o.showHelp || o.showVersion then                                   -- :195-214
-        return { exit := 0, errs := [], fatal := false, defaultMode := false, files := [] }
-      let fmt ← match w.tok o.decodeGroup with
-        | some tk => pure tk.fmt
-        | none => if o.decodeGroup = "probe".toList then pure FmtKind.probe else throw (.mk "no world entry for decode group")
-      -- :229-240 `_slurps(... $opts.argdecode | _map_argdecode ...)`: `open | decode` (with the -d group);
-      -- a failure of either is fatal
-      match getKey "argdecode".toList r.parsed with
-      | some (.pairs xs) =>
-        for (_, f) in xs do
-          match w.tok f with
-          | none => throw (.mk "no world entry for argdecode path")
-          | some tk =>
-            if tk.fk = .unknown then throw (.mk "argdecode of unknown kind")
-            let e := classEnv w fmt PClass.ok w.stdin
-            match (e.openF f).bind e.decode with
-            | none => return { exit := c.args, errs := [], fatal := true, defaultMode := false, files := [] }
-            | some _ => pure ()
-      | _ => pure ()
+    match mergeOptions dflt ot w r with
+    | .error e => .error e
+    | .ok .fatal => .ok .fatalArgs
+    | .ok (.ok m) =>
+      if (jget m "show_help").truthy then .ok .help
+      else if (jget m "show_version").truthy then .ok .version
+      else match optsOfMerged m r with
+        | .error e => .error e
+        | .ok o => .ok (.run m o)
+
+/-- the decode group's kind (`-d NAME`, default `probe`) -/
+def fmtOf (w : World) (o : Opts) : Except Unmodelled FmtKind :=
+  match w.tok o.decodeGroup with
+  | some tk => .ok tk.fmt
+  | none => if o.decodeGroup = "probe".toList then .ok FmtKind.probe else .error (.mk "no world entry for decode group")
+
+/-- init.jq:243-288: compile the program, read the inputs, run, map the error memory to the status -/
+def runBody (c : Codes) (w : World) (o : Opts) (fmt : FmtKind) : Except Unmodelled Pred := do
       -- program class
       let pc ← match o.exprFile, o.exprArg with
         | some f, _ => match w.tok f with
@@ -723,8 +986,9 @@ def mainModel (t : Table) (c : Codes) (ot : OTypes) (w : World) (argv : List Str
           | none => throw (.mk "no world entry for expr file")
         | none, some e => match w.tok e with
           | some tk => pure tk.pc
-          | none => throw (.mk "no world entry for expr")
-        | none, none => pure PClass.ok                                      -- default expr "."
+          | none => if e = ['.'] then pure PClass.ok                        -- the default expr "." (options.jq:51)
+                    else throw (.mk "no world entry for expr")
+        | none, none => throw (.mk "no expr")
       if pc = .unknown then throw (.mk "program of unknown class")
       if pc = .nc && !o.repl then                                            -- :137-141 halts before any input
         return { exit := c.compile, errs := [], fatal := true, defaultMode := false, files := [] }
@@ -770,5 +1034,28 @@ def mainModel (t : Table) (c : Codes) (ot : OTypes) (w : World) (argv : List Str
       else
         let st := loop env names ({} : St Unit)
         return { exit := st.exit c, errs := st.errs, fatal := false, defaultMode := true, files := o.filenames, pc := pc }
+
+/-- init.jq:229-288: the run proper, at class level.  :233-241 `_slurps(… $opts.argdecode | _map_argdecode …)` comes first:
+    `open | decode` (with the -d group) of every decode-file path; a failure of either is fatal -/
+def runModel (c : Codes) (w : World) (m : JObj) (o : Opts) : Except Unmodelled Pred :=
+  match fmtOf w o with
+  | .error e => .error e
+  | .ok fmt =>
+    match bindList m with
+    | .error e => .error e
+    | .ok bl =>
+      match argdecodeFails w fmt bl with
+      | .error e => .error e
+      | .ok true => .ok (fatalPred c)
+      | .ok false => runBody c w o fmt
+
+/-- `_main` (init.jq:169-290) at class level -/
+def mainModel (t : Table) (c : Codes) (dflt : JObj) (ot : OTypes) (w : World) (argv : List Str) : Except Unmodelled Pred :=
+  match mainDecide t dflt ot w argv with
+  | .error e => .error e
+  | .ok .fatalArgs => .ok (fatalPred c)
+  | .ok .help => .ok quietPred
+  | .ok .version => .ok quietPred
+  | .ok (.run m o) => runModel c w m o
 
 end FqModel.Cli
